@@ -514,17 +514,18 @@ pub fn builtin_binary_get<E: Effect>(
                     let bit_offset = bit_offset as usize;
                     let num_bits = num_bits as usize;
 
-                    // Calculate which bytes we need to read
-                    let total_bit_start = byte_offset * 8 + bit_offset;
-                    let total_bit_end = total_bit_start + num_bits;
-                    let last_byte_needed = total_bit_end.div_ceil(8);
-
-                    if last_byte_needed > binary_data.len() {
+                    // Calculate which bytes we need to read. The window ends `bit_offset +
+                    // num_bits` bits past the start of byte `byte_offset`; counting in bytes (not
+                    // bits) keeps a huge offset from overflowing instead of reporting an error.
+                    let last_byte_needed = byte_offset
+                        .checked_add((bit_offset + num_bits).div_ceil(8))
+                        .filter(|&last| last <= binary_data.len());
+                    let Some(last_byte_needed) = last_byte_needed else {
                         return Err(Error::InvalidArgument(format!(
                             "Not enough bits: need {} bits starting at byte {} bit {}",
                             num_bits, byte_offset, bit_offset
                         )));
-                    }
+                    };
 
                     // Read all bytes we need
                     let mut value = 0u64;
